@@ -130,3 +130,20 @@ class false_contradictory_fact_must_not_pass_silently:
         fact(B.int('z') > B.int('z'))
         return dict(a=B.array('a', (3,)))
     post = {'anything': lambda result: result == 42}
+
+
+@contract(T + 'quarter_turns', props=['SELF'])
+class true_real_modulo_is_the_floor_remainder:
+    cases = {'k=' + str(k): {'k': k} for k in (-3, 0, 2)}
+
+    def setup(B, k=0):
+        return dict(angle=B.real('t'), k=k)
+    post = {'multiples': lambda angle, k, result: angle != 90 * k or result,
+            'between': lambda angle, k, result: not (90 * k < angle and angle < 90 * k + 90) or not result}
+
+
+@contract(T + 'quarter_turns', props=['SELF'])
+class false_real_modulo_never_zero:
+    def setup(B):
+        return dict(angle=B.real('t'))
+    post = {'never': lambda result: not result}
